@@ -2,7 +2,7 @@ import SaModel.Lemmas.C12Basic
 import SaModel.Spec.WF
 /-
 C12 helpers, part 6: `sliceable` is implied by Arrow validity as spelled out for C03 (`Spec.wf`): every array the
-crate's builders produce (C03 `C03_wf`) may be sliced.
+crate's builders produce (C03 `C03_wfS`) may be sliced.
 -/
 namespace SaModel.Lemmas.C12
 open SaModel SaModel.Read SaModel.Spec
